@@ -44,7 +44,8 @@ PROPS["C06"] = dict(
            "inside the Collect call, interval contains its measurements. Late readers: two-sided (one admissible "
            "starting point must explain the first collection, exact afterwards).",
     assumptions=[
-        "values are bounded (|v| <= 2^40 for long, multiples of 2^-10 below 2^30 for double) so that no sum overflows or "
+        "a Counter<uint64_t> increment above INT64_MAX cannot be represented in the int64 sum point: the SDK refuses it with a warning; such increments are generated through every Add overload and the model ignores them - whatever the SDK does with one, the totals of the representable measurements must stay exact; readers may be registered with a MetricFilter that accepts everything (kAccept, or kAcceptPartial + every attribute set accepted for all-cumulative readers), which must be invisible; "
+        "the representable values are bounded (|v| <= 2^40 for long, multiples of 2^-10 below 2^30 for double) so that no sum overflows or "
         "rounds; negative values are only given to up-down counters (the API documents counters as non-negative)",
         "either-regions: a series whose running total is 0 may be reported as 0 or be absent; a delta collection "
         "without new data may deliver nothing, a MetricData without points, or zero-valued points; a delta interval starts "
